@@ -41,6 +41,15 @@
 #define FIELD_SIZE (1 << 16)
 #define GROUP_SIZE (FIELD_SIZE - 1)
 
+/* Verification hook: scheduling points for bounded interleaving exploration.
+ * Expands to nothing unless built with -DLIBERASURECODE_VERIF. */
+#ifdef LIBERASURECODE_VERIF
+void liberasurecode_verif_yield(int id);
+#define LIBERASURECODE_VERIF_YIELD(id) liberasurecode_verif_yield(id)
+#else
+#define LIBERASURECODE_VERIF_YIELD(id) do { } while (0)
+#endif
+
 int *log_table = NULL;
 int *ilog_table = NULL;
 int *ilog_table_begin = NULL;
@@ -52,7 +61,9 @@ void rs_galois_init_tables(void)
     /* already initialized */
     return;
   }
+  LIBERASURECODE_VERIF_YIELD(10);
   log_table = (int*)malloc(sizeof(int)*FIELD_SIZE);
+  LIBERASURECODE_VERIF_YIELD(11);
   ilog_table_begin = (int*)malloc(sizeof(int)*FIELD_SIZE*3);
   int i = 0;
   int x = 1;
@@ -67,12 +78,14 @@ void rs_galois_init_tables(void)
       x ^= PRIM_POLY;
     }
   }
+  LIBERASURECODE_VERIF_YIELD(12);
   ilog_table = &ilog_table_begin[GROUP_SIZE];
 }
 
 void rs_galois_deinit_tables(void)
 {
   init_counter--;
+  LIBERASURECODE_VERIF_YIELD(13);
   if (init_counter < 0) {
     /* deinit when not initialized?? */
     init_counter = 0;
@@ -82,6 +95,7 @@ void rs_galois_deinit_tables(void)
   } else {
     free(log_table);
     log_table = NULL;
+    LIBERASURECODE_VERIF_YIELD(14);
     free(ilog_table_begin);
     ilog_table_begin = NULL;
   }
